@@ -84,6 +84,9 @@ def harness(c, cfg):
     elif prop == "C01":
         c.prove_eq("C01:valuation=closed-form", nlv0, oracle_nlv(cash0, legs))
     else:
+        # the sweep moves value between margin and cash, it neither creates nor destroys any
+        c.prove_eq("C05:valuation:excess-and-shortfall-swept-to-and-from-cash(value-conserved)", nlv0,
+                   oracle_nlv(cash0, legs))
         _c05_after_valuation(c, br, legs, nlv0, "valuation")
         _c05_weights(c, br, legs, nlv0, "valuation")
 
